@@ -114,8 +114,10 @@ fn gen_ipp_curve<G: AffineRepr>(curve: &str, ci: u64, seed: u64, tier: &str, sin
     for o in comp_ipp::gen_and_run::<G>(curve, ci, &modulus, seed, tier) {
         let sh = sink.next % sink.shards.len();
         sink.next += 1;
-        sink.shards[sh].push_str(&o.coq);
-        sink.order.push((sh, o.id.clone()));
+        if !o.coq.is_empty() {
+            sink.shards[sh].push_str(&o.coq);
+            sink.order.push((sh, o.id.clone()));
+        }
         sink.impl_obs.push_str(&o.obs);
         sink.summary.push_str(&o.summary);
     }
@@ -168,8 +170,10 @@ fn gen_batch_curve<G: AffineRepr>(curve: &str, ci: u64, seed: u64, tier: &str, s
     for o in comp_batch::gen_and_run::<G>(curve, ci, &modulus, seed, tier) {
         let sh = sink.next % sink.shards.len();
         sink.next += 1;
-        sink.shards[sh].push_str(&o.coq);
-        sink.order.push((sh, o.id.clone()));
+        if !o.coq.is_empty() {
+            sink.shards[sh].push_str(&o.coq);
+            sink.order.push((sh, o.id.clone()));
+        }
         sink.impl_obs.push_str(&o.obs);
         sink.summary.push_str(&o.summary);
     }
